@@ -541,8 +541,18 @@ def run_group_(cloud, group, dyadic, info, big=False):
     if rng.random() < (0.5 if not big else 0.2):
         for forder in (False, True):
             apaths = make_arim_paths(cloud, group)
-            ray.ray_tracing_for_paths(apaths, convert_to_fortran_order=forder)
+            # the paths may be handed over as any iterable: a list, a tuple, a one-shot generator / iterator / dict view
+            how_ = int(rng.integers(0, 5))
+            arg_ = [apaths, tuple(apaths), (p_ for p_ in apaths), iter(apaths), {k_: p_ for k_, p_ in enumerate(apaths)}.values()][how_]
+            chk.count(paths_argument=["list", "tuple", "generator", "iterator", "dict values"][how_])
+            ray.ray_tracing_for_paths(arg_, convert_to_fortran_order=forder)
             evaluations += 1
+            if any(ap.rays is None for ap in apaths):
+                chk.violation(key + ":ray_tracing_for_paths:no-rays", "ray_tracing_for_paths left Path.rays unset (paths given as "
+                              + ["list", "tuple", "generator", "iterator", "dict values"][how_] + ")",
+                              replay_of(cloud, group, {"fortran": forder, "paths_argument": ["list", "tuple", "generator", "iterator", "dict values"][how_]}),
+                              failing_input_found=True)
+                continue
             for k, ap in enumerate(apaths):
                 t, ind = ap.rays.times, ap.rays.indices
                 flags_ok = (t.flags.f_contiguous and ind.flags.f_contiguous) if forder else t.flags.c_contiguous
